@@ -560,7 +560,7 @@ def spec_function_lemmas(hyps, goal, nonlinear=True):
     sums = ground_apps(list(hyps) + [goal], "Sum_")
     done = set()
     frontier = sums
-    for rnd in range(2):
+    for rnd in range(3):
         new = []
         for t in frontier:
             if t.get_id() in done:
@@ -568,6 +568,14 @@ def spec_function_lemmas(hyps, goal, nonlinear=True):
             done.add(t.get_id())
             arr, lo, hi = t.children()
             fs = npmodel.sum_facts(arr, lo, hi)
+            # frame of a store outside the summation range (an instance of extensionality): append / pop on lists
+            a_ = arr
+            depth_ = 0
+            while z3.is_app(a_) and a_.decl().kind() == z3.Z3_OP_STORE and depth_ < 3:
+                base_, idx_ = a_.arg(0), a_.arg(1)
+                fs.append(z3.Implies(z3.Or(idx_ < lo, idx_ >= hi), t == npmodel.sum_term(base_, lo, hi)))
+                a_ = base_
+                depth_ += 1
             extra.extend(fs)
             new.extend(fs)
         frontier = [t for t in ground_apps(new, "Sum_") if t.get_id() not in done]
@@ -1146,6 +1154,8 @@ class Eval:
         raise Unsupported("unresolved name %r at line %s" % (n.id, getattr(n, "lineno", "?")))
 
     def ev_Attribute(self, n, st):
+        if n.attr == "eps" and isinstance(n.value, ast.Call) and isinstance(n.value.func, ast.Attribute) and n.value.func.attr == "finfo":
+            return Num(z3.RealVal(2) ** -52 if False else z3.Q(1, 2 ** 52))     # np.finfo(float).eps = 2^-52
         base = self.ev(n.value, st)
         if isinstance(base, ModV):
             q = base.qual + "." + n.attr
@@ -1204,6 +1214,12 @@ class Eval:
 
     def ev_IfExp(self, n, st):
         c = b2t(self.ev(n.test, st))
+        if not self.spec:
+            # only one feasible arm under the path condition: no merge needed
+            if not self.ctx.feasible(st, z3.Not(c)):
+                return self.ev(n.body, st)
+            if not self.ctx.feasible(st, c):
+                return self.ev(n.orelse, st)
         mark = len(st.pc)
         st.pc.append(c)
         a = self.ev(n.body, st)
@@ -1215,6 +1231,20 @@ class Eval:
 
     def ev_Compare(self, n, st):
         left = self.ev(n.left, st)
+        if len(n.ops) == 1 and not isinstance(n.ops[0], (ast.In, ast.NotIn, ast.Is, ast.IsNot)) and not self.spec:
+            right0 = self.ev(n.comparators[0], st)
+            if (isinstance(left, Seq) and left.kind == "array") or (isinstance(right0, Seq) and right0.kind == "array"):
+                # NumPy elementwise comparison -> boolean array
+                sa = left if isinstance(left, Seq) else None
+                sb = right0 if isinstance(right0, Seq) else None
+                if sa is not None and sb is not None:
+                    self.need("broadcast: equal lengths", st, sa.n == sb.n, n)
+                op = n.ops[0]
+
+                def elem(k):
+                    return BoolV(self.compare(op, sa.at(k) if sa is not None else left, sb.at(k) if sb is not None else right0, st, n))
+                return Seq.from_fn((sa or sb).n, BOOL, elem)
+            return BoolV(self.compare(n.ops[0], left, right0, st, n))
         terms = []
         for op, rn in zip(n.ops, n.comparators):
             right = self.ev(rn, st)
@@ -1232,6 +1262,8 @@ class Eval:
         if isinstance(a, Opt) or isinstance(b, Opt):
             a = self.unopt(a, st, node)
             b = self.unopt(b, st, node)
+        if isinstance(a, Seq) or isinstance(b, Seq):
+            raise Unsupported("elementwise comparison outside ev_Compare")
         x, y, _ = num_pair(as_num(a), as_num(b))
         if isinstance(op, ast.Lt):
             return x < y
@@ -1844,6 +1876,8 @@ class Exec:
     def st_If(self, s, st):
         c = b2t(self.ev.ev(s.test, st))
         out = self.R()
+        base = len(st.pc)
+        branches = []
         for cond, body in ((c, s.body), (z3.Not(c), s.orelse)):
             cond = z3.simplify(cond)
             if z3.is_false(cond):
@@ -1854,9 +1888,44 @@ class Exec:
             s2 = st.fork()
             s2.pc.append(cond)
             r = self.block(body, [s2]) if body else self.R([s2])
+            branches.append(r)
+        # path merging: two branches that both fall through with one state each and differ only in scalar variables are
+        # joined into one state (values become if-then-else terms, the branch facts a disjunction) - keeps the number of
+        # paths, and with it the number of obligations, linear in the number of such conditionals
+        if len(branches) == 2 and all(len(r["normal"]) == 1 and not r["ret"] and not r["brk"] and not r["cont"] for r in branches):
+            a, b = branches[0]["normal"][0], branches[1]["normal"][0]
+            merged = self.merge(st, base, c, a, b)
+            if merged is not None:
+                return self.R([merged])
+        for r in branches:
             for k in out:
                 out[k].extend(r[k])
         return out
+
+    SCALAR = (Num, BoolV, EnumV, NoneV)
+
+    def merge(self, st, base, c, a, b):
+        if set(a.env) != set(b.env):
+            return None
+        env = {}
+        for k in a.env:
+            va, vb = a.env[k], b.env[k]
+            if va is vb:
+                env[k] = va
+                continue
+            ok = isinstance(va, self.SCALAR) and isinstance(vb, self.SCALAR) or \
+                (isinstance(va, Tup) and isinstance(vb, Tup) and len(va.items) == len(vb.items)
+                 and all(isinstance(i, self.SCALAR) for i in va.items + vb.items))
+            if not ok:
+                return None
+            try:
+                env[k] = ite_val(c, va, vb)
+            except Unsupported:
+                return None
+        da, db = a.pc[base:], b.pc[base:]
+        m = State(env, list(st.pc[:base]))
+        m.pc.append(z3.Or(z3.And(*da) if da else z3.BoolVal(True), z3.And(*db) if db else z3.BoolVal(True)))
+        return m
 
     # ---------------------------------------------------------------- loops
     def modified(self, node):
